@@ -556,7 +556,9 @@ def list_comp(ex, node):
         ex.assign(g.target, elem(i), node)
         if g.ifs:
             ex.limit('filtering comprehension over a symbolic sequence', node)
-        v = ex.res(ex.ev(node.elt))
+        v = ex.ev(node.elt)
+        if not ex.is_unresolved(v):
+            v = ex.res(v)
         k = ex.kind_of(v)
         body = ex.flat(v, k)
         # result: fresh sequence r with len n and r[j] == body[j/i] for all j
